@@ -681,7 +681,12 @@ func c04Hashing(depth int) mc.Harness {
 				vs = append(vs, hv{fmt.Sprintf("256x256 %s %s", kindName[k], c256[ci].name), buildImage(k, 0, 256, c256[ci]), 1})
 			}
 		}
-		for _, r := range []image.Rectangle{image.Rect(0, 0, 63, 64), image.Rect(0, 0, 64, 65), image.Rect(0, 0, 32, 32), image.Rect(0, 0, 255, 256), image.Rect(0, 0, 0, 0)} {
+		wrong := []image.Rectangle{image.Rect(0, 0, 63, 64), image.Rect(0, 0, 64, 65), image.Rect(0, 0, 32, 32), image.Rect(0, 0, 255, 256), image.Rect(0, 0, 0, 0)}
+		// the right number of pixels in the wrong shape (what fits the pooled buffer is not therefore the right image)
+		for _, wh := range [][2]int{{32, 128}, {128, 32}, {16, 256}, {1, 4096}, {4096, 1}, {128, 512}, {512, 128}, {1024, 64}, {64, 1024}, {1, 65536}} {
+			wrong = append(wrong, image.Rect(0, 0, wh[0], wh[1]))
+		}
+		for _, r := range wrong {
 			vs = append(vs, hv{fmt.Sprintf("wrong size %v Gray", r), image.NewGray(r), 0}, hv{fmt.Sprintf("wrong size %v Gray (256)", r), image.NewGray(r), 1})
 		}
 	}
